@@ -36,13 +36,6 @@ Theorem C02_chunks_eq_spec : forall chunks, lib_items chunks false = spec_items 
 Proof. exact chunks_eq_spec. Qed.
 Print Assumptions C02_chunks_eq_spec.
 
-(** C01's last clause: the library decodes what it encoded, under any segmentation *)
-Theorem C01_lib_roundtrip : forall m chunks, wf_msg m ->
-  concat chunks = encode_greeting default_greeting ++ encode_frames m ->
-  lib_items chunks false = [OItem (IGreeting default_greeting); OItem (IMessage m)].
-Proof. exact lib_roundtrip. Qed.
-Print Assumptions C01_lib_roundtrip.
-
 (** non-vacuity: a concrete stream cut at every position decodes identically *)
 Example C02_example :
   let s := encode_greeting default_greeting ++ encode_ready (ready_props DEALER (Some [65])) ++ encode_frames [[1; 2]; []; [3]] in
